@@ -160,7 +160,7 @@ func (mp *Map) delete(m *machine, k value) {
 // symbolic permutation when the engine explores map orders.
 func (mp *Map) iterOrder(m *machine) []*mapEntry {
 	out := append([]*mapEntry{}, mp.entries...)
-	if m.permuteMaps > 0 && len(out) > 1 && len(out) <= m.permuteMaps {
+	if m.permuteMaps > 0 && !m.permuteOff && len(out) > 1 && len(out) <= m.permuteMaps {
 		// Fisher-Yates driven by structural choices: all n! orders
 		for i := 0; i < len(out)-1; i++ {
 			j := i + m.choose(len(out)-i, "maporder")
